@@ -629,17 +629,19 @@ theorem gen_save_is_model (st : CState) : gsave st = some (true, st, saveT (toCa
     intro s j n h0 hn
     rcases s with ⟨st', env, inp, out⟩
     simp only at h0 hn; subst h0
+    have hs : (st'.sl = (st'.table j).sl) ↔ ((st'.table j).sl = st'.sl) := eq_comm
     by_cases h1 : (st'.table j).sl = st'.sl <;> by_cases h2 : (st'.table j).hash.d0 = 0 <;>
       by_cases h3 : (st'.table j).hash.d1 = 0 <;> cases h4 : (st'.table j).fit <;>
-      simp [iexec, eval, exec, liftOut, Env.set, hn, slotGet, Cache.savable, Key.empty, toCache, h1, h2, h3, h4]
+      simp [iexec, eval, exec, liftOut, Env.set, hn, slotGet, Cache.savable, Key.empty, toCache, hs, h1, h2, h3, h4]
   have hw : WriteStep st (toCache st).savable 3 F2 := by
     subst hF2
     intro s j h0
     rcases s with ⟨st', env, inp, out⟩
     simp only at h0; subst h0
+    have hs : (st'.sl = (st'.table j).sl) ↔ ((st'.table j).sl = st'.sl) := eq_comm
     by_cases h1 : (st'.table j).sl = st'.sl <;> by_cases h2 : (st'.table j).hash.d0 = 0 <;>
       by_cases h3 : (st'.table j).hash.d1 = 0 <;> cases h4 : (st'.table j).fit <;>
-      simp [iexec, eval, exec, liftOut, Env.set, slotGet, Cache.savable, Key.empty, toCache, h1, h2, h3, h4]
+      simp [iexec, eval, exec, liftOut, Env.set, slotGet, Cache.savable, Key.empty, toCache, hs, h1, h2, h3, h4]
   obtain ⟨env1, he1, hr1⟩ := overSlots_count hc (gdom st.mask)
     ⟨st, Env.empty.set 1 (Val.u64 (UInt64.ofNat 0)), [], [] ++ [Tok.u32 st.sl]⟩ (UInt64.ofNat 0) rfl (by simp [Env.set])
   simp only at hr1 he1
